@@ -1062,7 +1062,11 @@ func (h *histogram) maybeWidenZeroBucket(hot, cold *histogramCounts) bool {
 		return func(k, v interface{}) bool {
 			key := k.(int)
 			bucket := v.(*int64)
-			if key == smallestKey {
+			// Buckets below smallestKey can exist here, too: an observation
+			// that had read the old zero threshold before the swap and
+			// completed during the cooldown. They are covered by the new
+			// zero threshold just like the bucket at smallestKey.
+			if key <= smallestKey {
 				// Merge into hot zero bucket...
 				atomic.AddUint64(&hot.nativeHistogramZeroBucket, uint64(atomic.LoadInt64(bucket)))
 				// ...and delete from cold counts.
